@@ -22,6 +22,7 @@ import (
 	"time"
 
 	client "github.com/liftbridge-io/liftbridge-api/v2/go"
+	"github.com/nats-io/nats.go"
 	"google.golang.org/grpc/codes"
 	"google.golang.org/grpc/metadata"
 	"google.golang.org/grpc/status"
@@ -128,6 +129,14 @@ func genC16(r *simrt.Rand, tier string, idx int) *hx.Program {
 		mode := int64(0)
 		if r.Pct(asyncPct) {
 			mode = 1 // through the publisher's PublishAsync session
+		}
+		if r.Pct(6) {
+			// an envelope published straight to the stream's NATS subject (what a NATS client, or PublishToSubject,
+			// does): nothing refuses ack policy NONE on this route, the expected offset must be honoured all the same
+			mode = 2
+			if r.Pct(50) {
+				pol = 3
+			}
 		}
 		deadline := int64(0) // (the usual 5 s)
 		if r.Pct(8) {
@@ -438,6 +447,8 @@ func execC16(t *testing.T, prog *hx.Program, dec *simrt.Decider, verbose bool) *
 			s.done = true
 			s.cancel()
 		}
+		var rawConn *nats.Conn
+		h.do(900, "raw-connect", func() { rawConn, _ = nats.Connect("sim") })
 		newAttempt := func(ci int, part int32, expected int64, policy client.AckPolicy, mode string, rnd int64) *occAttempt {
 			a := &occAttempt{client: ci, part: part, expected: expected, policy: policy, mode: mode, inc: restarts}
 			a.val = []byte(fmt.Sprintf("v-%d-%d-%d-%d", ci, part, len(attempts), rnd%100000))
@@ -665,6 +676,24 @@ func execC16(t *testing.T, prog *hx.Program, dec *simrt.Decider, verbose bool) *
 					if op.Arg(4, 0) == 1 {
 						a := newAttempt(ci, part, expectedFor(op.Arg(0, 0), part, op.Arg(2, 0)), policy, "async", op.Arg(2, 0))
 						sendAsync(n, []*occAttempt{a})
+						continue
+					}
+					if op.Arg(4, 0) == 2 {
+						a := newAttempt(ci, part, expectedFor(op.Arg(0, 0), part, op.Arg(2, 0)), policy, "raw", op.Arg(2, 0))
+						subj := occStreamName
+						if a.part > 0 {
+							subj = fmt.Sprintf("%s.%d", occStreamName, a.part)
+						}
+						env, merr := proto.MarshalPublish(&client.Message{Value: a.val, Offset: a.expected, AckPolicy: policy, CorrelationId: string(a.val)})
+						if merr == nil && rawConn != nil {
+							h.do(900, "raw-publish", func() { rawConn.Publish(subj, env) })
+							probes["probe.published_as_raw_envelope"]++
+						}
+						inflight[[2]int64{int64(a.part), a.expected}]--
+						// nobody answers: the outcome is settled from the final log
+						a.unknown = true
+						a.ret = 0
+						simrt.Sleep(5 * time.Millisecond)
 						continue
 					}
 					a := newAttempt(ci, part, expectedFor(op.Arg(0, 0), part, op.Arg(2, 0)), policy, "sync", op.Arg(2, 0))
